@@ -77,7 +77,15 @@ func (p param) coq() string {
 
 // ---------- case ----------
 
+type tmplJ struct {
+	Kind     string `json:"kind"`
+	SQL      string `json:"sql"`
+	CoqProj  string `json:"coq_proj,omitempty"`
+	CoqWhere string `json:"coq_where,omitempty"`
+}
+
 type stepT struct {
+	T      int     `json:"t,omitempty"`      // which statement of the session: 0 = Template, k = More[k-1]
 	Params []param `json:"params,omitempty"` // an execution of the prepared statement
 	Other  string  `json:"other,omitempty"`  // or a plain statement run in all three engines
 }
@@ -89,6 +97,14 @@ type caseT struct {
 	Steps    []stepT  `json:"steps"`
 	CoqProj  string   `json:"coq_proj,omitempty"` // model terms for the integer fragment
 	CoqWhere string   `json:"coq_where,omitempty"`
+	More     []tmplJ  `json:"more,omitempty"` // further statements prepared and executed in the same session
+}
+
+func (c *caseT) tmpl(k int) tmplJ {
+	if k == 0 {
+		return tmplJ{Kind: c.Kind, SQL: c.Template, CoqProj: c.CoqProj, CoqWhere: c.CoqWhere}
+	}
+	return c.More[k-1]
 }
 
 const hole = "?"
@@ -116,7 +132,7 @@ func smallInt(r *lib.RNG) param {
 	return param{Type: "int", Text: fmt.Sprint(r.Range(-2, 6))}
 }
 
-var strPool = []string{"", "a", "A", "ab", "a'b", `a\b`, "a%", "%", "_b", "é", "日本", "x y", "NULL", "1", " 1", "0x41", "a\"b"}
+var strPool = []string{"", "a", "A", "X", "x", "ab", "a'b", `a\b`, "a%", "%", "_b", "é", "日本", "x y", "NULL", "1", " 1", "0x41", "a\"b"}
 
 func anyParam(r *lib.RNG, want string) param {
 	if r.Chance(1, 8) {
@@ -326,9 +342,106 @@ func genParam(r *lib.RNG, want string) param {
 	}
 }
 
+// casePairs: two statement texts that differ only in letter case (inside a literal, an alias, a keyword or a
+// column name); both are prepared / executed in the same session
+func casePair(r *lib.RNG) (tmplT, tmplT) {
+	type pr struct {
+		kind, a, b string
+		types      []string
+	}
+	p := lib.Pick(r, []pr{
+		{"select-case-literal", "SELECT a, 'Total' FROM t WHERE b = ?", "SELECT a, 'TOTAL' FROM t WHERE b = ?", []string{"small"}},
+		{"select-case-literal", "SELECT a, c FROM t WHERE c = 'X' OR b = ?", "SELECT a, c FROM t WHERE c = 'x' OR b = ?", []string{"small"}},
+		{"select-case-literal", "SELECT a, CONCAT(c, 'Ab') FROM t WHERE a >= ?", "SELECT a, CONCAT(c, 'aB') FROM t WHERE a >= ?", []string{"key"}},
+		{"select-case-alias", "SELECT a, b AS Total FROM t WHERE a > ?", "SELECT a, b AS TOTAL FROM t WHERE a > ?", []string{"key"}},
+		{"select-case-keyword", "select a from t where b = ?", "SELECT a FROM t WHERE b = ?", []string{"small"}},
+		{"update-case-literal", "UPDATE t SET c = 'Ab' WHERE a = ?", "UPDATE t SET c = 'AB' WHERE a = ?", []string{"key"}},
+		{"insert-case-literal", "INSERT INTO t (a, b, c, d) VALUES (?, ?, 'k', 1.50)", "INSERT INTO t (a, b, c, d) VALUES (?, ?, 'K', 1.50)", []string{"key", "small"}},
+		{"delete-case-literal", "DELETE FROM t WHERE c = 'a' AND a > ?", "DELETE FROM t WHERE c = 'A' AND a > ?", []string{"key"}},
+	})
+	x, y := tmplT{kind: p.kind, sql: p.a, types: p.types}, tmplT{kind: p.kind, sql: p.b, types: p.types}
+	if r.Bool() {
+		return y, x
+	}
+	return x, y
+}
+
+// manyHoles: statements with 10-15 placeholders whose values must not be permuted
+func manyHoles(r *lib.RNG) tmplT {
+	n := r.Range(10, 15)
+	q := strings.TrimSuffix(strings.Repeat("?, ", n), ", ")
+	distinct := func(k int) []string {
+		ts := make([]string, k)
+		for i := range ts {
+			ts[i] = "distinct"
+		}
+		return ts
+	}
+	switch r.Intn(5) {
+	case 0:
+		return tmplT{kind: "select-many-holes", sql: "SELECT " + q, types: distinct(n)}
+	case 1: // modelled: the holes are projected
+		cp := []string{"(Col 0)"}
+		for i := 0; i < n-1; i++ {
+			cp = append(cp, fmt.Sprintf("(Bind %d)", i))
+		}
+		return tmplT{kind: "select-int", sql: "SELECT a, " + strings.TrimSuffix(strings.Repeat("?, ", n-1), ", ") + " FROM t WHERE (a <= ?)",
+			types: append(distinct(n-1), "key"), coqP: "[" + strings.Join(cp, "; ") + "]", coqW: fmt.Sprintf("(Le (Col 0) (Bind %d))", n-1)}
+	case 2:
+		k := n / 2
+		var parts []string
+		for i := 0; i < k; i++ {
+			parts = append(parts, "(a = ? AND b = ?)")
+		}
+		ts := make([]string, 2*k)
+		for i := range ts {
+			ts[i] = []string{"key", "small"}[i%2]
+		}
+		return tmplT{kind: "select-many-holes", sql: "SELECT a, b FROM t WHERE " + strings.Join(parts, " OR "), types: ts}
+	case 3:
+		return tmplT{kind: "insert-many-holes", sql: "INSERT INTO t (a, b, c, d) VALUES (?, ?, ?, ?), (?, ?, ?, ?), (?, ?, ?, ?)",
+			types: []string{"key1", "small", "str", "dec", "key2", "small", "str", "dec", "key3", "small", "str", "dec"}}
+	default:
+		return tmplT{kind: "update-many-holes", sql: "UPDATE t SET b = ? + ? + ? + ? + ?, c = CONCAT(?, ?, ?) WHERE a IN (?, ?) OR b = ?",
+			types: []string{"distinct", "distinct", "distinct", "distinct", "distinct", "str", "str", "str", "key", "key", "small"}}
+	}
+}
+
 func gen(r *lib.RNG) caseT {
-	t := genTemplate(r)
+	var ts []tmplT
+	switch r.Intn(6) {
+	case 0, 1: // one statement
+		ts = []tmplT{genTemplate(r)}
+	case 2: // near-duplicate texts in one session, maybe with a third statement
+		x, y := casePair(r)
+		ts = []tmplT{x, y}
+		if r.Bool() {
+			ts = append(ts, genTemplate(r))
+		}
+	case 3:
+		ts = []tmplT{manyHoles(r)}
+		if r.Bool() {
+			ts = append(ts, genTemplate(r))
+		}
+	default: // several different statements interleaved
+		for i, n := 0, r.Range(2, 3); i < n; i++ {
+			if r.Chance(1, 5) {
+				ts = append(ts, manyHoles(r))
+			} else {
+				ts = append(ts, genTemplate(r))
+			}
+		}
+	}
+	t := ts[0]
 	c := caseT{Kind: t.kind, Template: t.sql, CoqProj: t.coqP, CoqWhere: t.coqW}
+	modelled, hasInsert := false, false
+	for i, x := range ts {
+		if i > 0 {
+			c.More = append(c.More, tmplJ{Kind: x.kind, SQL: x.sql, CoqProj: x.coqP, CoqWhere: x.coqW})
+		}
+		modelled = modelled || x.kind == "select-int"
+		hasInsert = hasInsert || strings.HasPrefix(x.kind, "insert")
+	}
 	c.Setup = []string{"CREATE TABLE t (a INT PRIMARY KEY, b INT, c VARCHAR(20), d DECIMAL(10,2))"}
 	n := r.Range(0, 6)
 	var vs []string
@@ -339,7 +452,7 @@ func gen(r *lib.RNG) caseT {
 	if n > 0 {
 		c.Setup = append(c.Setup, "INSERT INTO t VALUES "+strings.Join(vs, ", "))
 	}
-	ns := r.Range(2, 5)
+	ns := r.Range(2, 5) + 2*(len(ts)-1)
 	altered := false
 	for i := 0; i < ns; i++ {
 		if i > 0 && r.Chance(1, 3) {
@@ -352,7 +465,7 @@ func gen(r *lib.RNG) caseT {
 			case 2:
 				o = fmt.Sprintf("UPDATE t SET b = %s WHERE a = %d", smallInt(r).literal(), r.Range(1, 6))
 			case 3:
-				if !altered && t.kind != "select-int" && t.kind != "insert" {
+				if !altered && !modelled && !hasInsert {
 					o = "ALTER TABLE t ADD COLUMN e INT DEFAULT 7"
 					altered = true
 				} else {
@@ -361,7 +474,7 @@ func gen(r *lib.RNG) caseT {
 			case 4:
 				o = "CREATE INDEX ibc ON t (b, c)"
 			case 5:
-				if t.kind != "select-int" {
+				if !modelled {
 					o = "ALTER TABLE t MODIFY b BIGINT"
 				} else {
 					o = "CREATE INDEX ic ON t (c)"
@@ -371,14 +484,23 @@ func gen(r *lib.RNG) caseT {
 			}
 			c.Steps = append(c.Steps, stepT{Other: o})
 		}
-		ps := make([]param, len(t.types))
-		for k, w := range t.types {
-			ps[k] = genParam(r, w)
+		k := r.Intn(len(ts))
+		if i < len(ts) { // every statement is executed at least once, in order, before the random interleaving
+			k = i
 		}
-		if ps == nil {
-			ps = []param{}
+		ps := make([]param, len(ts[k].types))
+		base := 100 + 20*r.Intn(4)
+		for j, w := range ts[k].types {
+			switch w {
+			case "distinct":
+				ps[j] = param{Type: "int", Text: fmt.Sprint(base + 3*j + r.Intn(3))}
+			case "key1", "key2", "key3":
+				ps[j] = param{Type: "int", Text: fmt.Sprint(30 + 10*i + int(w[3]-'0'))}
+			default:
+				ps[j] = genParam(r, w)
+			}
 		}
-		c.Steps = append(c.Steps, stepT{Params: ps})
+		c.Steps = append(c.Steps, stepT{T: k, Params: ps})
 	}
 	return c
 }
@@ -465,12 +587,26 @@ func run(c *lib.Ctx, cs caseT) {
 			}
 		}
 	}
-	prep := ss[1].Query("PREPARE s FROM '" + strings.ReplaceAll(cs.Template, "'", "''") + "'")
+	preps := make([]eng.Result, 1+len(cs.More))
+	caseVariant := false
+	for k := range preps {
+		preps[k] = ss[1].Query(fmt.Sprintf("PREPARE s%d FROM '%s'", k, strings.ReplaceAll(cs.tmpl(k).SQL, "'", "''")))
+		for j := 0; j < k; j++ {
+			if cs.tmpl(j).SQL != cs.tmpl(k).SQL && strings.EqualFold(cs.tmpl(j).SQL, cs.tmpl(k).SQL) {
+				caseVariant = true
+			}
+		}
+	}
+	if len(cs.More) > 0 {
+		c.Count(fmt.Sprintf("statements-in-session=%d", 1+len(cs.More)))
+	}
+	if caseVariant {
+		c.Count("session-with-texts-differing-only-in-case")
+	}
 	id := -1
 	failed := false
 	afterDDL := false
 	nexec := 0
-	c.Count("kind:" + cs.Kind)
 	for si, st := range cs.Steps {
 		if st.Other != "" {
 			for i := range ss {
@@ -483,10 +619,16 @@ func run(c *lib.Ctx, cs caseT) {
 			continue
 		}
 		nexec++
+		tm := cs.tmpl(st.T)
+		prep := preps[st.T]
+		c.Count("kind:" + tm.Kind)
+		if len(st.Params) >= 10 {
+			c.Count("executions-with-10+-params")
+		}
 		// table before the step, for the model
 		before := ss[0].Query("SELECT a, b FROM t ORDER BY a")
 		// api
-		oa := toObs(queryWithBindings(ss[0], cs.Template, st.Params))
+		oa := toObs(queryWithBindings(ss[0], tm.SQL, st.Params))
 		// sql
 		var ob obs
 		if prep.Err != nil {
@@ -497,14 +639,14 @@ func run(c *lib.Ctx, cs caseT) {
 				ss[1].Query(fmt.Sprintf("SET @p%d = %s", k+1, p.literal()))
 				using = append(using, fmt.Sprintf("@p%d", k+1))
 			}
-			q := "EXECUTE s"
+			q := fmt.Sprintf("EXECUTE s%d", st.T)
 			if len(using) > 0 {
 				q += " USING " + strings.Join(using, ", ")
 			}
 			ob = toObs(ss[1].Query(q))
 		}
 		// text
-		oc := toObs(ss[2].Query(inline(cs.Template, st.Params)))
+		oc := toObs(ss[2].Query(inline(tm.SQL, st.Params)))
 		// effects
 		var tabs [3]obs
 		for i := range ss {
@@ -515,11 +657,11 @@ func run(c *lib.Ctx, cs caseT) {
 			c.Count("text-error:" + oc.err)
 		}
 		key := ""
-		if len(oc.rows) > 0 || strings.HasPrefix(cs.Kind, "insert") || strings.HasPrefix(cs.Kind, "update") || strings.HasPrefix(cs.Kind, "delete") {
-			key = fmt.Sprintf("%s|%v|%v", cs.Template, st.Params, tabs[2].rows)
+		if len(oc.rows) > 0 || strings.HasPrefix(tm.Kind, "insert") || strings.HasPrefix(tm.Kind, "update") || strings.HasPrefix(tm.Kind, "delete") {
+			key = fmt.Sprintf("%s|%v|%v", tm.SQL, st.Params, tabs[2].rows)
 		}
 		rec := map[string]interface{}{"case": cs, "step": si}
-		if cs.Kind == "select-int" && before.Err == nil {
+		if tm.Kind == "select-int" && before.Err == nil {
 			// Coq case: bindings, proj, where, table (a,b), observed api rows
 			var bs, db []string
 			for _, p := range st.Params {
@@ -528,8 +670,8 @@ func run(c *lib.Ctx, cs caseT) {
 			for _, r := range before.Rows {
 				db = append(db, "["+coqVal(r[0])+"; "+coqVal(r[1])+"]")
 			}
-			res := queryWithBindingsRows(ss[0], cs.Template, st.Params)
-			term := fmt.Sprintf("(%s, %s, %s, %s, %s)", lib.CoqList(bs), cs.CoqProj, cs.CoqWhere, lib.CoqList(db), res)
+			res := queryWithBindingsRows(ss[0], tm.SQL, st.Params)
+			term := fmt.Sprintf("(%s, %s, %s, %s, %s)", lib.CoqList(bs), tm.CoqProj, tm.CoqWhere, lib.CoqList(db), res)
 			id = c.Case(term, cs, key)
 			evals++
 		} else {
@@ -549,6 +691,12 @@ func run(c *lib.Ctx, cs caseT) {
 		if nexec > 1 {
 			first = "/re-execution"
 		}
+		if len(st.Params) >= 10 {
+			first += "/10+params"
+		}
+		if caseVariant {
+			first += "/texts-differing-only-in-case-in-session"
+		}
 		report := func(way string, o obs, tab obs) bool {
 			switch {
 			case !same(o, oc):
@@ -556,14 +704,14 @@ func run(c *lib.Ctx, cs caseT) {
 				if o.err != oc.err {
 					kind = "error-" + o.err + "-vs-" + map[bool]string{true: "ok", false: oc.err}[oc.err == ""]
 				}
-				c.PredFail(id, fmt.Sprintf("%s/%s/%s/%s%s%s", way, cs.Kind, paramTypes(st.Params), kind, ddl, first),
+				c.PredFail(id, fmt.Sprintf("%s/%s/%s/%s%s%s", way, tm.Kind, paramTypes(st.Params), kind, ddl, first),
 					fmt.Sprintf("%q with %v (step %d of %v over %q): %s returns %v, inlined text %q returns %v",
-						cs.Template, st.Params, si, cs.Steps, cs.Setup, way, o, inline(cs.Template, st.Params), oc), cs)
+						tm.SQL, st.Params, si, cs.Steps, cs.Setup, way, o, inline(tm.SQL, st.Params), oc), cs)
 				return true
 			case !same(tab, tabs[2]):
-				c.PredFail(id, fmt.Sprintf("%s/%s/%s/effect-differs%s%s", way, cs.Kind, paramTypes(st.Params), ddl, first),
+				c.PredFail(id, fmt.Sprintf("%s/%s/%s/effect-differs%s%s", way, tm.Kind, paramTypes(st.Params), ddl, first),
 					fmt.Sprintf("%q with %v (step %d of %v over %q): table after %s is %v, after inlined text %q it is %v",
-						cs.Template, st.Params, si, cs.Steps, cs.Setup, way, tab, inline(cs.Template, st.Params), tabs[2]), cs)
+						tm.SQL, st.Params, si, cs.Steps, cs.Setup, way, tab, inline(tm.SQL, st.Params), tabs[2]), cs)
 				return true
 			}
 			return false
